@@ -377,7 +377,9 @@ fn enum_make(_tier: Tier, i: u64) -> Case {
 /// libFuzzer entry / from-bytes generator: bring a decoded case into the domain of `strategy`
 pub fn fuzz_domain(c: &mut Case) -> bool {
     c.g.sanitize(1, 11, 36, None);
-    c.k = 1 + c.k % 5;
+    if c.k == 0 || c.k > 5 {
+        c.k = 1 + c.k % 5;
+    }
     c.hkind %= 3;
     c.hvals.resize(12, 0);
     c.cost %= 4;
